@@ -417,18 +417,30 @@ def _simple_helper(h):
     return len(h.body) <= 25
 
 
-def _rename_locals(h, suffix):
+def _rename_locals(h, suffix, as_locals=()):
+    """Copy of the helper's body with its locals (and the parameters in `as_locals`) renamed by `suffix`."""
     loc = local_names(h)
     params = [a.arg for a in h.args.posonlyargs + h.args.args + h.args.kwonlyargs]
     body = copy.deepcopy(h.body)
 
     class R(ast.NodeTransformer):
         def visit_Name(self, n):
-            if n.id in loc and n.id not in params:
+            if n.id in loc and (n.id not in params or n.id in as_locals):
                 return ast.copy_location(ast.Name(n.id + suffix, n.ctx), n)
             return n
 
     return [R().visit(s) for s in body], params
+
+
+def _simple_arg(e):
+    """Argument expressions that may be substituted for every load of the parameter: names, constants, attribute chains."""
+    if isinstance(e, (ast.Name, ast.Constant)):
+        return True
+    if isinstance(e, ast.Attribute):
+        return _simple_arg(e.value)
+    if isinstance(e, ast.UnaryOp) and isinstance(e.op, (ast.USub, ast.Not)):
+        return _simple_arg(e.operand)
+    return False
 
 
 def inline_new_helpers(tree, known_functions, rel):
@@ -510,6 +522,8 @@ def inline_new_helpers(tree, known_functions, rel):
                             body2 = [s for s in (h2.body if h2 else []) if not (isinstance(s, ast.Expr) and isinstance(s.value, ast.Constant))]
                             if h2 is not None and len(body2) == 1 and isinstance(body2[0], ast.Return) and body2[0].value is not None:
                                 mp = bind(h2, node, m2)
+                                if mp is not None and any((not _simple_arg(a_)) and sum(1 for x in ast.walk(body2[0]) if isinstance(x, ast.Name) and x.id == p_) > 1 for p_, a_ in mp.items()):
+                                    mp = None
                                 if mp is not None:
                                     new_expr = subst([ast.Expr(copy.deepcopy(body2[0].value))], mp)[0].value
                                     _replace_node(st, node, new_expr)
@@ -521,11 +535,19 @@ def inline_new_helpers(tree, known_functions, rel):
                     out.append(st)
                     continue
                 counter[0] += 1
-                body, params = _rename_locals(h, "__h%d" % counter[0])
+                sfx = "__h%d" % counter[0]
+                stored = {n.id for n in ast.walk(h) if isinstance(n, ast.Name) and isinstance(n.ctx, (ast.Store, ast.Del))}
+                uses = {}
+                for n in ast.walk(h):
+                    if isinstance(n, ast.Name) and isinstance(n.ctx, ast.Load):
+                        uses[n.id] = uses.get(n.id, 0) + 1
+                # parameters the helper re-assigns, and non-trivial arguments used more than once, are bound to a temporary first
+                as_locals = {p_ for p_, a_ in mp.items() if p_ in stored or (not _simple_arg(a_) and uses.get(p_, 0) > 1)}
+                body, params = _rename_locals(h, sfx, as_locals)
                 body = [s for s in body if not (isinstance(s, ast.Expr) and isinstance(s.value, ast.Constant))]
-                if is_m:
-                    mp = dict(mp)
-                body = subst(body, mp)
+                prelude = [ast.Assign([ast.Name(p_ + sfx, ast.Store())], copy.deepcopy(mp[p_])) for p_ in [x for x in params if x in as_locals]]
+                mp = {k: v for k, v in mp.items() if k not in as_locals}
+                body = prelude + subst(body, mp)
                 rets = [n for s in body for n in ast.walk(s) if isinstance(n, ast.Return)]
                 if mode == "return":
                     out.extend(body)
